@@ -380,13 +380,20 @@ nni_aio_reset(nni_aio *aio)
 	}
 }
 
+static void nni_sleep_cancel(nng_aio *, void *, nng_err);
+
 bool
 nni_aio_start(nni_aio *aio, nni_aio_cancel_fn cancel, void *data)
 {
 	nni_aio_expire_q *eq      = aio->a_expire_q;
 	bool              timeout = false;
+	// A sleep is only marked as such (a_sleep) below, under the lock,
+	// once it has really started: a cancellation of this aio's previous
+	// operation that is still in flight must not find a sleep to finish
+	// before there is one.
+	bool sleep = (cancel == nni_sleep_cancel);
 
-	if (!aio->a_sleep && !aio->a_use_expire) {
+	if (!sleep && !aio->a_use_expire) {
 		// Convert the relative timeout to an absolute timeout.
 		switch (aio->a_timeout) {
 		case NNG_DURATION_ZERO:
@@ -403,7 +410,7 @@ nni_aio_start(nni_aio *aio, nni_aio_cancel_fn cancel, void *data)
 	} else if (aio->a_use_expire && aio->a_expire <= nni_clock()) {
 		timeout = true;
 	}
-	if (!aio->a_sleep) {
+	if (!sleep) {
 		aio->a_expire_ok = false;
 	}
 
@@ -480,6 +487,7 @@ nni_aio_start(nni_aio *aio, nni_aio_cancel_fn cancel, void *data)
 	NNI_ASSERT(aio->a_cancel_fn == NULL);
 	aio->a_cancel_fn  = cancel;
 	aio->a_cancel_arg = data;
+	aio->a_sleep      = sleep;
 
 	// We only schedule expiration if we have a way for the expiration
 	// handler to actively cancel it.
@@ -925,7 +933,6 @@ nni_sleep_aio(nng_duration ms, nng_aio *aio)
 {
 	nni_aio_reset(aio);
 	aio->a_expire_ok = true;
-	aio->a_sleep     = true;
 	switch (aio->a_timeout) {
 	case NNG_DURATION_DEFAULT:
 	case NNG_DURATION_INFINITE:
